@@ -28,7 +28,10 @@ MetaTable ==
     m1 |-> [name |-> "f1.bin", mime |-> "application/x-verif", pairs |-> <<<<"K1", "v1">>>>, ts |-> "old",  gz |-> FALSE, ttl |-> ""],
     m2 |-> [name |-> "f2.dat", mime |-> "text/x-verif",        pairs |-> <<>>,                     ts |-> "none", gz |-> TRUE,  ttl |-> ""],
     mt |-> [name |-> "",       mime |-> "",                   pairs |-> <<>>,                     ts |-> "old",  gz |-> FALSE, ttl |-> "1h"],
-    mu |-> [name |-> "f5.bin", mime |-> "",                   pairs |-> <<>>,                     ts |-> "none", gz |-> FALSE, ttl |-> "1h"] ]
+    mu |-> [name |-> "f5.bin", mime |-> "",                   pairs |-> <<>>,                     ts |-> "none", gz |-> FALSE, ttl |-> "1h"],
+    \* m3: the writer sends a Content-Type of 300 bytes - longer than a record can hold (mimes are
+    \* stored under 256 bytes), so no mime is promised back (mime = ""), everything else is
+    m3 |-> [name |-> "f3.bin", mime |-> "",                   pairs |-> <<>>,                     ts |-> "none", gz |-> FALSE, ttl |-> ""] ]
 Metas == DOMAIN MetaTable
 Gz(m) == MetaTable[m].gz
 (* the stored needle has size 0: empty payload that was not gzip-wrapped *)
